@@ -199,7 +199,10 @@ eval(struct expr *expr)
 		l = eval(expr->base);
 		if (l->kind == EXPRCONST) {
 			expr->kind = EXPRCONST;
-			if (l->type->prop & PROPINT && t->prop & PROPFLOAT) {
+			if (t->kind == TYPEBOOL) {
+				/* 0 if the value compares equal to 0, otherwise 1 (6.3.1.2) */
+				expr->u.constant.u = consttruth(l);
+			} else if (l->type->prop & PROPINT && t->prop & PROPFLOAT) {
 				if (l->type->u.basic.issigned)
 					expr->u.constant.f = l->u.constant.i;
 				else
